@@ -17,14 +17,15 @@ Definition run (inp : list N) : list N :=
         (* execute: kids = schema, document, variables, data *)
         enc_tree (of_response (execute s d vars (to_data (kid 3 w))))
       else if op =? 2 then
-        (* static and data checks: well_typed, well_typed_strict, schema_ok,
-           variables coerce, conforming data, no null in a nullable variable *)
+        (* static and data checks: well_typed; well_typed_at the coerced variables (2 = variables
+           rejected); schema_ok; variables coerce; conforming data *)
         let root := to_data (kid 3 w) in
         let cvo := coerce_variable_values s (d_vars d) vars in
-        [b2n (well_typed s d); b2n (well_typed_strict s d); b2n (schema_ok s);
+        [b2n (well_typed s d);
+         match cvo with Some cv => b2n (well_typed_at s d cv) | None => 2 end;
+         b2n (schema_ok s);
          b2n (match cvo with Some _ => true | None => false end);
-         b2n (match root_type s (d_kind d) with Some rt => conforms_root s rt root | None => false end);
-         b2n (match cvo with Some cv => no_null_nullable_vars (d_vars d) cv | None => false end)]
+         b2n (match root_type s (d_kind d) with Some rt => conforms_root s rt root | None => false end)]
       else if op =? 4 then
         (* shape of a given response data (kid 3 = json) *)
         match coerce_variable_values s (d_vars d) vars, root_type s (d_kind d) with
